@@ -2,6 +2,7 @@ package detectsim
 
 import (
 	"io"
+	"os"
 	"strings"
 	"testing"
 	"time"
@@ -74,6 +75,38 @@ func NameItem(msg string) int {
 		}
 	}
 	return best
+}
+
+// withStdout runs f with os.Stdout in the given condition ("": as it is, i.e.
+// discarded; closed: a closed file, every write fails; pipe-closed: a pipe
+// whose reading end has gone). A library that prints diagnostics must not let
+// their fate decide its results.
+func withStdout(mode string, f func()) {
+	if mode == "" {
+		f()
+		return
+	}
+	old := os.Stdout
+	var w *os.File
+	if mode == "closed" {
+		w, _ = os.CreateTemp(".", "closed-stdout-*")
+		if w != nil {
+			_ = os.Remove(w.Name())
+			_ = w.Close()
+		}
+	} else {
+		r, pw, err := os.Pipe()
+		if err == nil {
+			_ = r.Close()
+			w = pw
+			defer pw.Close()
+		}
+	}
+	if w != nil {
+		os.Stdout = w
+	}
+	defer func() { os.Stdout = old }()
+	f()
 }
 
 // StepBudget is the liveness bound in scheduler steps for a configuration:
@@ -242,7 +275,7 @@ func Execute(t *testing.T, cfg *RunConfig) *Outcome {
 		KeepTrace: 400,
 		WallLimit: 15 * time.Minute,
 	}
-	out.Sim = simctl.Run(t, opt, body)
+	withStdout(cfg.Stdio, func() { out.Sim = simctl.Run(t, opt, body) })
 	rs.mu.Lock()
 	out.Calls = rs.Calls
 	out.Observed = rs.Observed
